@@ -24,6 +24,12 @@ theorem order_independent (T : CharTable) (o : Opts) (hcap : 1 ≤ o.sizes.maxSt
     (items items' : List (Option Line × Nat)) (h : items.Perm items') : extract T o items = extract T o items' :=
   PermLemmas.extract_perm T o hcap items items' h
 
+/-- **order independence for every Size setting**: the code reads the cap as `max(cap, 1)` (what it computes for the
+    options `o` is `extract T o.norm`), so no condition on the sizes is left -/
+theorem order_independent_every_size (T : CharTable) (o : Opts)
+    (items items' : List (Option Line × Nat)) (h : items.Perm items') : extract T o.norm items = extract T o.norm items' :=
+  order_independent T o.norm (Nat.le_max_right _ _) items items' h
+
 /-- the default Size satisfies the cap hypothesis -/
 example : 1 ≤ ({} : Opts).sizes.maxStringsInGroup := by decide
 
